@@ -16,6 +16,14 @@ pub axiom fn axiom_slice_key<V>(m: Map<Vec<u8>, V>, k: &[u8])
     ensures vstd::std_specs::btree::contains_borrowed_key(m, k) <==> (exists|kv: Vec<u8>| kv@ == k@ && m.contains_key(kv)),
        forall|v: V| vstd::std_specs::btree::maps_borrowed_key_to_value(m, k, v) <==> (exists|kv: Vec<u8>| kv@ == k@ && m.contains_key(kv) && m[kv] == v);
 
+// Ord for Vec<u8> is the lexicographic order of the bytes (std: "Implements ordering of vectors, lexicographically")   TRUSTED
+pub open spec fn lex_cmp(a: Seq<u8>, b: Seq<u8>) -> core::cmp::Ordering {
+    if lex_lt(a, b) { core::cmp::Ordering::Less } else if a == b { core::cmp::Ordering::Equal } else { core::cmp::Ordering::Greater }
+}
+pub axiom fn axiom_vec_u8_cmp_lex()
+    ensures <Vec<u8> as vstd::std_specs::cmp::OrdSpec>::obeys_cmp_spec(),
+        forall|a: Vec<u8>, b: Vec<u8>| #[trigger] vstd::std_specs::cmp::OrdSpec::cmp_spec(&a, &b) == lex_cmp(a@, b@);
+
 pub open spec fn has_key(ls: Map<Vec<u8>, Delta>, k: Seq<u8>) -> bool { exists|kv: Vec<u8>| kv@ == k && ls.contains_key(kv) }
 pub open spec fn the_key(ls: Map<Vec<u8>, Delta>, k: Seq<u8>) -> Vec<u8> { choose|kv: Vec<u8>| kv@ == k && ls.contains_key(kv) }
 
